@@ -26,7 +26,7 @@ STUB = ['thread scheduler', 'clock', 'asyncio selector']
 def gen(rng, tier):
     tree = servers.gen_tree(rng, proc_ok=PROC_READY and rng.random() < 0.15)
     lvs = servers.leaves(tree)
-    nxt = iter(range(1, 1000))
+    nxt = iter(range(rng.choice([0, 1]), 1000))  # request value 0 (falsy) included in half of the runs
     callers = []
     allx = []
     for ci in range(rng.choice([1, 2, 2, 3, 4])):
